@@ -277,6 +277,9 @@ func (maybeSelf someDef[T]) ToFloat32() (float32, error) {
 		return (ref).(float32), nil
 	case float64:
 		val, err := maybeSelf.ToFloat64()
+		if !math.IsInf(val, 0) && (val > math.MaxFloat32 || val < -math.MaxFloat32) {
+			return 0, ErrConversionSizeOverflow
+		}
 		return float32(val), err
 	}
 }
